@@ -38,7 +38,7 @@ def cases(draw, tier):
     rng = random.Random(draw(st.integers(0, 2 ** 32 - 1)))
     n = draw(st.one_of(st.integers(k, 3 * k + 2), st.integers(k, 2 * k), st.integers(0, 3 * k + 2)))
     shape = draw(st.sampled_from(["random", "random", "gc_boundary", "gc_boundary", "run", "run", "motif_rc",
-                                  "motif_rc", "motif", "foreign", "short"]))
+                                  "motif_rc", "motif", "foreign", "short", "long_valid", "long_valid", "long_valid"]))
     if shape == "short":
         n = draw(st.integers(0, max(0, k - 1)))
     text = [rng.choice("ACGT") for _ in range(n)]
@@ -67,7 +67,21 @@ def cases(draw, tier):
             text[pos: pos + len(piece)] = list(piece)
     elif shape == "foreign" and n:
         where = rng.choice([rng.randrange(n), n - 1, n - 1])
-        text[where] = rng.choice("acgtNU-x \n\n\t\r\x00")
+        text[where] = rng.choice(["\n"] * 14 + list("acgtNU-x \t\r\x00" + gens.FOREIGN))
+    elif shape == "long_valid" and k <= 10:
+        # dozens of windows (24k..40k symbols), extended greedily so that every window keeps satisfying the
+        # documented predicate (the way an emitted strand does); sometimes spoilt at one place afterwards
+        target, text = rng.randrange(24 * k, 40 * k + 1), []
+        while len(text) < target:
+            for c in rng.sample("ACGT", 4):
+                if len(text) + 1 < k or o.ref_local_filter(cfg, "".join(text[-(k - 1):] if k > 1 else []) + c,
+                                                            only_last=True) is not False:
+                    text.append(c)
+                    break
+            else:
+                break
+        if text and rng.random() < 0.25:
+            text[rng.randrange(len(text))] = rng.choice("ACGT")
     text = "".join(text)
     # further strings judged by the SAME filter object afterwards (verdicts must not depend on earlier calls):
     # variants that share a long suffix with the first string, and the first string again
@@ -158,6 +172,10 @@ def evaluate(case):
             labels.append("rc_only_motif_hit")
     if len(text) < k:
         labels.append("shorter_than_window")
+    if len(text) >= 24 * k:
+        labels.append("windows>=24")
+        if verdicts[False]:
+            labels.append("windows>=24_accepted")
     if not acgt:
         labels.append("foreign")
     labels.append("accepts" if verdicts[False] else "rejects")
@@ -168,7 +186,8 @@ SUBCHECKS = [
     SubCheck("predicate", evaluate, strategy=cases, examples=(12000, 150000), shards=(16, 16),
              floors={"gc_on_bound": 500, "rc_only_motif_hit": 150, "window_conjunction": 1500,
                      "shorter_than_window": 800, "foreign": 300, "accepts": 1500, "rejects": 1500, "rules=3": 300,
-                     "same_object_again": 1500, "k=40": 200, "run=0": 200, "trailing_newline": 60},
+                     "same_object_again": 1500, "k=40": 200, "run=0": 200, "trailing_newline": 60,
+                     "windows>=24": 600, "windows>=24_accepted": 250},
              rule=RULE),
 ]
 
